@@ -48,10 +48,14 @@ Definition dispatch (op : list N) (args : list (list N)) : list N * list N :=
     (append_int (dec_N (arg 0 args)) (dec_N (arg 1 args)), [])
   else if list_eqb op (str "c16.enc_uint") then
     (append_uint (dec_N (arg 0 args)) (dec_N (arg 1 args)), [])
-  else if list_eqb op (str "c16.dec_int") || list_eqb op (str "c16.sdec_int") || list_eqb op (str "c16.s1dec_int") then
+  else if list_eqb op (str "c16.dec_int") then
     show_ures (unmarshal_int true (dec_N (arg 0 args)) (arg 1 args))
-  else if list_eqb op (str "c16.dec_uint") || list_eqb op (str "c16.sdec_uint") || list_eqb op (str "c16.s1dec_uint") then
+  else if list_eqb op (str "c16.dec_uint") then
     show_ures (unmarshal_int false (dec_N (arg 0 args)) (arg 1 args))
+  else if list_eqb op (str "c16.sdec_int") || list_eqb op (str "c16.s1dec_int") then
+    show_ures (unmarshal_int_stream true (dec_N (arg 0 args)) (arg 1 args))
+  else if list_eqb op (str "c16.sdec_uint") || list_eqb op (str "c16.s1dec_uint") then
+    show_ures (unmarshal_int_stream false (dec_N (arg 0 args)) (arg 1 args))
   else if list_eqb op (str "c17.enc") then
     (* arg0: "11" / "10" / "01" / "00" = html,normalize ; arg1: the Go string *)
     (append_string_v (N.eqb (nth 0 (arg 0 args) 48) 49) (N.eqb (nth 1 (arg 0 args) 48) 49) (arg 1 args), [])
